@@ -242,15 +242,13 @@ Definition learn (lim : nat) (msg : bytes) (r : ref_rr) : learned :=
     | None => LBad
     end
   else if rr_type r =? 12 then
-    match ref_decode msg (rr_rdoff r) with
-    | Some (ls, _) =>
-        if Nat.leb (wire_len ls) lim then
-          match reverse_v4 (rr_owner r) with
-          | Some ip => LPTR (dotted ls) ip (rr_ttl r)
-          | None => LSkip
-          end
-        else LBad
-    | None => LBad
+    match reverse_v4 (rr_owner r) with
+    | None => LSkip             (* not an IPv4 reverse name: of no use to the cache, RDATA not examined *)
+    | Some ip =>
+        match ref_decode msg (rr_rdoff r) with
+        | Some (ls, _) => if Nat.leb (wire_len ls) lim then LPTR (dotted ls) ip (rr_ttl r) else LBad
+        | None => LBad
+        end
     end
   else LSkip.
 
